@@ -31,10 +31,11 @@ pub fn make_gate(d: &Value) -> Result<(Gate, Value), String> {
             use quant_iron::parametric_gate::*;
             let v = vfs(&d["vals"]);
             let pg: Box<dyn ParametricGate> = match d["kind"].as_str().unwrap() {
-                "RX" => Box::new(ParametricRx { parameter: Parameter::new([v[0]]) }),
-                "RY" => Box::new(ParametricRy { parameter: Parameter::new([v[0]]) }),
-                "RZ" => Box::new(ParametricRz { parameter: Parameter::new([v[0]]) }),
-                "P" => Box::new(ParametricP { parameter: Parameter::new([v[0]]) }),
+                // created with other values and then set: the gate must carry the CURRENT values
+                "RX" => { let p = Parameter::new([v[0] + 1.0]); p.set([v[0]]); Box::new(ParametricRx { parameter: p }) }
+                "RY" => { let p = Parameter::new([v[0] - 0.5]); p.set([v[0]]); Box::new(ParametricRy { parameter: p }) }
+                "RZ" => { let p = Parameter::new([0.0]); p.set([v[0]]); Box::new(ParametricRz { parameter: p }) }
+                "P" => { let p = Parameter::new([9.0]); p.set([v[0]]); Box::new(ParametricP { parameter: p }) }
                 "RyPhase" => Box::new(ParametricRyPhase { parameter: Parameter::new([v[0], v[1]]) }),
                 "RyPhaseDag" => Box::new(ParametricRyPhaseDag { parameter: Parameter::new([v[0], v[1]]) }),
                 _ => Box::new(ParametricMatchgate { parameter: Parameter::new([v[0], v[1], v[2]]) }),
